@@ -181,10 +181,20 @@ def run(tier, rep, ev):
         for dest in ("abs", "none", "rel"):
             for via in ("path", "stream"):
                 cases.append({"entries": arc, "dest": dest, "via": via, "root": os.path.join(base, f"r{len(cases)}"), "prepopulate": []})
+    # two extractions into one destination: the first leaves links (each lexically inside), the second brings directories and files
+    # whose names run through them
+    firsts = [[L(["a"], ["."]), L(["b"], ["a", ".."])], [L(["a"], ["."]), L(["b"], ["a", "..", "O"])], [L(["d"], [".."]) if False else L(["a"], ["."]), L(["a", "up"], [".."])],
+              [L(["b", "l"], [".."]), L(["b", "l", "m"], [".."])]]
+    seconds = [[D(["b", "d"]), F(["b", "d", "f"])], [F(["b", "new.txt"])], [D(["a", "up", "dd"])], [F(["a", "up", "ff"])], [D(["b", "l", "m", "x"]), F(["b", "l", "m", "x", "y"])],
+               [{"name": ["b", "e"], "kind": "empty", "tgt": []}]]
+    for a1 in firsts:
+        for a2 in seconds:
+            for dest in ("abs", "none"):
+                cases.append({"entries": a1, "then": a2, "dest": dest, "via": "stream", "root": os.path.join(base, f"r{len(cases)}"), "prepopulate": []})
     outs = sandbox.run_cases(execute, cases, timeout=30, nproc=16)
     traces, origins = [], []
     for c, o in zip(cases, outs):
-        key = json.dumps([c["entries"], c["dest"], c["via"]])
+        key = json.dumps([c["entries"], c.get("then"), c["dest"], c["via"]])
         ev.case(key, nontrivial=any(e["kind"] == "link" or ".." in e["name"] or "/" in e["name"][:1] for e in c["entries"]))
         if o.status == "ok":
             # 'rel' is lexically the same as 'abs' for the model; empty files behave like files
